@@ -238,8 +238,8 @@ pub fn check_code(code: &[u8], limit: usize, iterations: usize) -> Result<Option
     }
 }
 
-/// Every value-building opcode with a composite (3-node) operand in each operand position in turn and in all of
-/// them, so that every arm of the size bookkeeping is exercised with operands that are not single nodes.
+/// Every value-building opcode with every vector of operand shapes, so that every arm of the size bookkeeping (and of
+/// the opcodes' constant / symbolic case splits) is exercised with operands that are not single nodes.
 fn operand_position_programs() -> Vec<(String, Vec<u8>)> {
     let ops: Vec<(u8, usize)> = vec![
         (0x01, 2), (0x02, 2), (0x03, 2), (0x04, 2), (0x05, 2), (0x06, 2), (0x07, 2), (0x08, 3), (0x09, 3), (0x0a, 2), (0x0b, 2),
@@ -248,24 +248,23 @@ fn operand_position_programs() -> Vec<(String, Vec<u8>)> {
         (0x3f, 1), (0x40, 1), (0x51, 1), (0x52, 2), (0x53, 2), (0x54, 1), (0x55, 2), (0xa0, 2), (0xa1, 3), (0xa2, 4), (0xa3, 5),
         (0xa4, 6), (0xf0, 3), (0xf1, 7), (0xf2, 7), (0xf3, 2), (0xf4, 6), (0xf5, 4), (0xfa, 6), (0xfd, 2), (0xff, 1), (0x57, 2),
     ];
-    let simple = vec![op::CALLVALUE];
-    let composite = vec![op::CALLVALUE, op::CALLVALUE, op::ADD];
+    // every operand is, independently, a symbolic leaf, a constant, or a 3-node composite: 3^k shape vectors per opcode
+    // (a constant size next to a composite offset takes different arms of the copy / return-data code than two leaves)
+    let shapes: [Vec<u8>; 3] = [vec![op::CALLVALUE], vec![0x60, 0x40], vec![op::CALLVALUE, op::CALLVALUE, op::ADD]];
     let mut out = Vec::new();
     for (opc, k) in ops {
-        for which in 0..=k {
-            // `which == k`: every operand composite; else only operand `which` (0 = first popped)
+        let total = 3usize.pow(k as u32);
+        for v in 0..total {
+            let shape_of = |pos: usize| (v / 3usize.pow(pos as u32)) % 3;
             let mut code = Vec::new();
             for pos in (0..k).rev() {
-                if which == k || pos == which {
-                    code.extend(&composite);
-                } else {
-                    code.extend(&simple);
-                }
+                code.extend(&shapes[shape_of(pos)]);
             }
             code.push(opc);
             // read back what a memory-writing instruction stored, and keep the result in storage too
             code.extend([op::PUSH0, op::MLOAD, op::PUSH0, op::SSTORE]);
-            out.push((format!("opcode {opc:#04x} with composite operand {which} of {k}"), code));
+            let names: Vec<&str> = (0..k).map(|p| ["leaf", "const", "composite"][shape_of(p)]).collect();
+            out.push((format!("opcode {opc:#04x} with operands (first popped first) {names:?}"), code));
         }
     }
     out
@@ -386,8 +385,8 @@ impl Check for C18 {
         let rule = format!(
             "all stack-safe token sequences <= {} over 13 value-growing tokens (CALLVALUE, CALLDATALOAD, DUP1, ADD, MUL, hash of the \
              top of stack, SLOAD/SSTORE of slot 0, MSTORE/MLOAD at 0, JUMPDEST, conditional jump back to the first JUMPDEST, PUSH 1) x \
-             value size limits {:?} x iteration limits {{1, 3}} for looping programs; every value-building opcode (55) with a 3-node \
-             operand in each operand position in turn and in all positions, and 219 solc-idiom programs (all lifted node kinds), under \
+             value size limits {:?} x iteration limits {{1, 3}} for looping programs; every value-building opcode (55) with every vector of operand shapes \
+             {{symbolic leaf, constant, 3-node composite}}^arity, and 219 solc-idiom programs (all lifted node kinds), under \
              limits 2, 4, 6, 250. For every stored state: every stack item, memory \
              content/offset, storage key/written value, recorded and logged value has <= limit nodes, and every node of every value \
              (also of the exported view, after lifting, and after constant folding) reports size() = its recursive node count. \
